@@ -20,7 +20,7 @@ for _n in ("pytorch_lightning", "lightning.pytorch", "lightning", "lightning_fab
 warnings.filterwarnings("ignore")
 
 X, U = Space({"x": 1}), Space({"u": 1})
-MENU = ["pinn_static", "boundary", "param_penalty", "pinn_param", "adaptive_w", "data2", "pinn_random", "pideeponet", "periodic_param"]
+MENU = ["pinn_static", "boundary", "param_penalty", "pinn_param", "adaptive_w", "data2", "pinn_random", "pideeponet", "periodic_param", "ritz"]
 OPTS = {
     "sgd": dict(cls=torch.optim.SGD, lr=0.05, args={}),
     "sgd_momentum": dict(cls=torch.optim.SGD, lr=0.05, args={"momentum": 0.9}),
@@ -83,6 +83,10 @@ class World:
             c = Cn.PIDeepONetCondition(net, fset, S.GridSampler(self.dom, 3).make_static(), lambda u, x: u - x, weight=weight, name=kind)
         elif kind == "periodic_param":
             c = Cn.PeriodicCondition(self.model, self.dom, lambda u_left, u_right, J: u_left - u_right - J, parameter=self.J, weight=weight, name=kind)
+        elif kind == "ritz":
+            def integrand(u, x):
+                return 0.5 * tp.utils.grad(u, x) ** 2 - u * torch.sin(3 * x)
+            c = Cn.DeepRitzCondition(self.model, S.GridSampler(self.dom, 6).make_static(), integrand, weight=weight, name=kind)
         elif kind == "val_data":
             xs = torch.linspace(0, 1, 3).reshape(3, 1)
             ld = PointsDataLoader((Points(xs, X), Points(xs * 0.5, U)), batch_size=3)
@@ -167,7 +171,8 @@ def reference_run(kinds, weights, optname, N):
     snaps, osnaps = [], []
     with Seam(budget=100000):
         for i in range(N):
-            loss = sum(c.weight * c(device="cpu", iteration=i) for c in conds)
+            # the weights are the CONFIGURED ones (not read back from the condition objects)
+            loss = sum(wt * c(device="cpu", iteration=i) for wt, c in zip(weights, conds))
             opt.zero_grad()
             loss.backward()
             opt.step()
@@ -210,8 +215,13 @@ def solver_run(kinds, weights, optname, N, val_kinds=(), val_interval=1, extra_c
     vconds = [w.make(k) for k in val_kinds]
     named = learnables(conds)
     o = OPTS[optname]
-    setting = tp.solver.OptimizerSetting(o["cls"], o["lr"], optimizer_args=dict(o["args"]), scheduler_class=o.get("sched"),
-                                         scheduler_args=dict(o.get("sargs", {})), scheduler_frequency=o.get("freq", 1))
+    # arguments that are empty are left to the constructor's defaults (several settings live in one process)
+    kw = {}
+    if o["args"]:
+        kw["optimizer_args"] = dict(o["args"])
+    if "sched" in o:
+        kw.update(scheduler_class=o["sched"], scheduler_args=dict(o["sargs"]), scheduler_frequency=o["freq"])
+    setting = tp.solver.OptimizerSetting(o["cls"], o["lr"], **kw)
     solver = tp.solver.Solver(conds, val_conditions=vconds, optimizer_setting=setting)
     rec = StepRecorder(named, model=w.model)
     w.sd_snaps = rec.sd_snaps
